@@ -193,6 +193,35 @@ class SStr:
             return z3.If(z3.And(z3.UGE(ch, 65), z3.ULE(ch, 90)), ch + 32, ch)
         return self._map(lo)
 
+    _WS = (9, 10, 11, 12, 13, 28, 29, 30, 31, 32)  # str.isspace() within ASCII
+
+    def _is_ws(self, ch):
+        if _is_conc(ch):
+            return ch in SStr._WS
+        return cur().fork(z3.Or(*[ch == w for w in SStr._WS]))
+
+    def _strip(self, chars, left, right):
+        if chars is not None:
+            raise Unsupported("strip(chars)")
+        self.fix()
+        a, b = 0, len(self.cs)
+        if left:
+            while a < b and self._is_ws(self.cs[a]):
+                a += 1
+        if right:
+            while b > a and self._is_ws(self.cs[b - 1]):
+                b -= 1
+        return SStr(self.cs[a:b])
+
+    def strip(self, chars=None):
+        return self._strip(chars, True, True)
+
+    def lstrip(self, chars=None):
+        return self._strip(chars, True, False)
+
+    def rstrip(self, chars=None):
+        return self._strip(chars, False, True)
+
     def _find_positions(self, sep):
         """concrete list of the positions at which `sep` (one concrete character) occurs (forks per character)"""
         self.fix()
